@@ -14,6 +14,10 @@ from checklib import VERIF
 PROGRAM_PROPS = ["C01", "C02", "C03", "C04", "C05", "C06", "C07", "C08", "C09", "C10", "C11", "C13", "C17", "C18", "C20"]
 
 QUICK = {"programs": 112, "steps": 8}
+BUDGET_QUICK = (240, 200)        # seconds for the directed (corpus + cells) and the generated stage
+BUDGET_THOROUGH = (900, 2400)
+DROPPED = {}
+from multiprocessing import TimeoutError as mp_TimeoutError
 THOROUGH = {"programs": 1600, "steps": 10}
 
 
@@ -26,9 +30,28 @@ def program_campaign(prop, seed, n, steps, focus=None, avoid_known=True, extra_p
     focus = focus or prop
     base = derive_seed(prop, seed)
     results = []
+    budget = BUDGET_THOROUGH if n > 400 else BUDGET_QUICK
+
+    def collect(it, total, seconds, what):
+        """results as they arrive; when the time budget of the stage is used up the rest is dropped (counted and
+        printed, never a finding): the quick check has to stay a check that can run on every change"""
+        out, t0 = [], time.time()
+        try:
+            for _ in range(total):
+                left = seconds - (time.time() - t0)
+                if left <= 0:
+                    raise mp_TimeoutError()
+                out.append(it.next(timeout=left))
+        except mp_TimeoutError:
+            print(f"[{prop}] time budget of the {what} stage ({seconds}s) used up: {total - len(out)} of {total} programs not run")
+            DROPPED[what] = DROPPED.get(what, 0) + total - len(out)
+        return out
+
     with campaign.pool() as p:
-        fixed = list(p.imap_unordered(campaign.run_fixed, list(extra_programs))) if extra_programs else []
-        gen = list(p.imap_unordered(campaign.run_generated, [(base + i, focus, steps, avoid_known) for i in range(n)]))
+        extra_programs = list(extra_programs)
+        fixed = collect(p.imap_unordered(campaign.run_fixed, extra_programs), len(extra_programs), budget[0], "directed") if extra_programs else []
+        gen = collect(p.imap_unordered(campaign.run_generated, [(base + i, focus, steps, avoid_known) for i in range(n)]), n, budget[1], "generated")
+        p.terminate()
     return fixed, gen
 
 
@@ -293,6 +316,7 @@ def run_program_check(prop, tier, seed):
         "proof_problems": tie_problems,
         "corpus_programs": len([r for r in fixed if "cell" not in r["program"]]),
         "directed_cell_programs": len([r for r in fixed if "cell" in r["program"]]),
+        "programs_not_run_time_budget": dict(DROPPED),
     }
     if extra:
         cov["decision_logic_cases"] = extra["cases"]
@@ -338,4 +362,8 @@ def main():
 
 
 if __name__ == "__main__":
-    sys.exit(main())
+    rc = main()
+    sys.stdout.flush()
+    sys.stderr.flush()
+    # leave at once: workers stopped by a time budget are not waited for
+    os._exit(rc if isinstance(rc, int) else 0)
